@@ -117,4 +117,5 @@ def main(pid, tier, seed, replay):
         rule="generated programs (sentinel values -2^31 / 2^31-1 in the data, negation, optional eqrel relation) x {declared, 4 random btree/brie/default assignments, "
         "one compiled assignment per few programs}; non-trivial = distinct program with non-empty output",
         mutate=lambda p, r: add_eqrel(p, r), key_for=key_for,
+        post=__import__("volume").post_step("c08vol", 4, 40, [("interpreter -j4", dict(jobs=4), False), ("compiled -j4", dict(jobs=4, compiled=True), True)]),
         extra_programs=lambda r, tier: [directed(r.fork("d%d" % i), "eqrel" if i % 2 else "brie") for i in range(24 if tier == "quick" else 400)])
